@@ -174,15 +174,45 @@ func coreCase(rep *hx.Report, seed int64, fo force) {
 	mkEngine()
 	var mu sync.Mutex
 	var sconns []*nbio.Conn
+	// what the open / data handlers do with the k-th connection comes from a generator of its own (the histories of the
+	// corpus seeds stay what they were): bit k of rejectMask = the open handler closes the connection at once (an admission
+	// reject), bit k of hangupMask = the data handler answers and closes
+	r2 := rand.New(rand.NewSource(seed ^ 0x5eed0c18))
+	var rejectMask, hangupMask uint64
+	if r2.Intn(3) == 0 {
+		rejectMask = r2.Uint64() & r2.Uint64()
+		if r2.Intn(3) == 0 {
+			rejectMask = ^uint64(0)
+		}
+		h.Steps = append(h.Steps, fmt.Sprintf("open-handler-closes-mask=%x", rejectMask))
+	}
+	if r2.Intn(4) == 0 {
+		hangupMask = r2.Uint64() & r2.Uint64()
+		h.Steps = append(h.Steps, fmt.Sprintf("data-handler-closes-mask=%x", hangupMask))
+	}
+	var nth int64
+	var hang sync.Map
 	g.OnOpen(func(c *nbio.Conn) {
 		ev('o')
 		atomic.AddInt64(&opened, 1)
+		k := uint(atomic.AddInt64(&nth, 1)-1) % 64
 		mu.Lock()
 		sconns = append(sconns, c)
 		mu.Unlock()
+		if hangupMask>>k&1 == 1 {
+			hang.Store(c, true)
+		}
+		if rejectMask>>k&1 == 1 {
+			c.Close()
+		}
 	})
 	g.OnClose(func(c *nbio.Conn, err error) { ev('n'); atomic.AddInt64(&closed, 1) })
-	g.OnData(func(c *nbio.Conn, data []byte) { c.Write(append([]byte{}, data...)) })
+	g.OnData(func(c *nbio.Conn, data []byte) {
+		c.Write(append([]byte{}, data...))
+		if _, ok := hang.Load(c); ok {
+			c.Close()
+		}
+	})
 	err := g.Start()
 	restoreLimit()
 	if err != nil {
